@@ -88,6 +88,14 @@ def _is_one_ms(t):
     return (set(kws) == {"milliseconds"} and D_const(kws["milliseconds"], 1)) or (set(kws) == {"microseconds"} and D_const(kws["microseconds"], 1000))
 
 
+def _is_one_day(t):
+    if t.k != "call" or not t.a[0].endswith("timedelta"):
+        return False
+    kws = {a.a[0]: a.a[1] for a in t.a[1] if a.k == "kw"}
+    pos = [a for a in t.a[1] if a.k != "kw"]
+    return (not kws and len(pos) == 1 and D_const(pos[0], 1)) or (not pos and set(kws) == {"days"} and D_const(kws["days"], 1))
+
+
 def check_from_datetime_timedelta(ck, fn, dt, ld, lm, D):
     """integer path: delta = (the datetime, as an aware UTC instant) - Unix epoch.  Recognised forms (proved):
       fields:    days = delta.days + 4383, ms = delta.seconds * 1000 + delta.microseconds // 1000 (timedelta is normalised:
@@ -120,13 +128,18 @@ def check_from_datetime_timedelta(ck, fn, dt, ld, lm, D):
     MSD = 86400000
     td = [a for a in ld.co if a.k == "bound?" and a.a[0] == "days" and a.a[1] == D]
     tot = [a for a in ld.co if a.k == "op" and a.a[0] == "//" and D_const(a.a[2], MSD) and a.a[1].k == "op" and a.a[1].a[0] == "//" and a.a[1].a[1] == D and _is_one_ms(a.a[1].a[2])]
-    shape = (len(ld.co) == 1 and ld.c == 4383) and ((len(td) == 1 and ld.co[td[0]] == 1) or (len(tot) == 1 and ld.co[tot[0]] == 1))
+    # whole days by timedelta floor division: delta // timedelta(days=1); the rest: (delta % timedelta(days=1)) // timedelta(milliseconds=1)
+    dq = [a for a in ld.co if a.k == "op" and a.a[0] == "//" and a.a[1] == D and _is_one_day(a.a[2])]
+    shape = (len(ld.co) == 1 and ld.c == 4383) and ((len(td) == 1 and ld.co[td[0]] == 1) or (len(tot) == 1 and ld.co[tot[0]] == 1) or (len(dq) == 1 and ld.co[dq[0]] == 1))
     semantic(ld, lambda d_, s_, us_: d_ + 4383, "day count == (datetime - Unix epoch) in whole days (floored: correct before 1970) + 4383", shape, f"{ld!r}")
     secs = [a for a in lm.co if a.k == "bound?" and a.a[0] == "seconds" and a.a[1] == D]
     sub = [a for a in lm.co if a.k == "op" and a.a[0] == "//" and a.a[1].k == "bound?" and a.a[1].a[0] == "microseconds" and a.a[1].a[1] == D and D_const(a.a[2], 1000)]
     shape = len(lm.co) == 2 and len(secs) == 1 and len(sub) == 1 and lm.co[secs[0]] == 1000 and lm.co[sub[0]] == 1 and lm.c == 0
     if not shape and tot:
         rem = [a for a in lm.co if a.k == "op" and a.a[0] == "%" and D_const(a.a[2], MSD) and a.a[1] == tot[0].a[1]]
+        shape = len(lm.co) == 1 and len(rem) == 1 and lm.co[rem[0]] == 1 and lm.c == 0
+    if not shape and dq:
+        rem = [a for a in lm.co if a.k == "op" and a.a[0] == "//" and _is_one_ms(a.a[2]) and a.a[1].k == "op" and a.a[1].a[0] == "%" and a.a[1].a[1] == D and _is_one_day(a.a[1].a[2])]
         shape = len(lm.co) == 1 and len(rem) == 1 and lm.co[rem[0]] == 1 and lm.c == 0
     semantic(lm, lambda d_, s_, us_: s_ * 1000 + us_ // 1000,
              "ms of day == whole milliseconds of (datetime - Unix epoch) below one day (integer arithmetic: exact for every whole-millisecond datetime)", shape, f"{lm!r}")
@@ -204,6 +217,8 @@ def _teval(t, env):
         return t.a[0]
     if k == "sym":
         return env[t.a[0]]
+    if k == "obj":
+        return env[t]
     if k == "builtin":
         if t.a[0].endswith("timezone.utc"):
             return _dt.timezone.utc
@@ -249,6 +264,42 @@ def _teval(t, env):
             return {"int": int, "float": float}[short](*pos)
         raise ValueError(f"call {name}")
     raise ValueError(f"term {k}")
+
+
+def check_add_by_witness(ck, fn, new_ms, new_days, td_obj, env):
+    """__add__ written with arithmetic on the timedelta object itself (delta % timedelta(days=1) // timedelta(milliseconds=1),
+    ...): the stored fields are evaluated on witness (timestamp, delta) pairs with the real datetime module against integer
+    arithmetic on total milliseconds.  A differing witness refutes; agreement leaves the obligation undecided."""
+    import datetime as _dt
+    what = "stored (day count, ms of day) == integer arithmetic on total milliseconds, normalised to ms < 86400000 (witness evaluation)"
+    MSD = 86400000
+    wit = [(0, 0, (0, 0, 0)), (100, 86399999, (0, 0, 1000)), (100, 86399000, (0, 0, 999999)), (100, 43200000, (2, 43200, 0)), (4383, 1, (1, 86399, 999000)),
+           (20000, 86399999, (3, 86399, 999999)), (10, 500, (0, 59, 500)), (65000, 0, (100, 1, 1500))]
+    try:
+        for d0, m0, (dd, ss, us) in wit:
+            tdv = _dt.timedelta(days=dd, seconds=ss, microseconds=us)
+            venv = {"ccsds_days": d0, "ms_of_day": m0, "td_days": dd, "td_seconds": ss, "td_microseconds": us, td_obj: tdv}
+            feas = True
+            for f_ in env.facts:
+                try:
+                    if _teval(f_, venv) is False:
+                        feas = False
+                        break
+                except Exception:  # noqa: BLE001
+                    continue
+            if not feas:
+                continue            # this witness leaves through OverflowError / TypeError
+            got = (_teval(new_days, venv), _teval(new_ms, venv))
+            tot = m0 + ss * 1000 + us // 1000
+            want = (d0 + dd + tot // MSD, tot % MSD)
+            if got != want:
+                ck.refuted("I-INT", fn, what, f"for (days {d0}, ms {m0}) + timedelta(days={dd}, seconds={ss}, microseconds={us}) the stored fields are {got}, reference {want}",
+                           witness={"ccsds_days": d0, "ms_of_day": m0, "delta": [dd, ss, us]})
+                return
+    except Exception as e:  # noqa: BLE001
+        ck.unknown("I-INT", fn, what, f"not evaluable: {e}")
+        return
+    ck.unknown("I-INT", fn, what, f"timedelta arithmetic on the delta object is not decided symbolically; it agrees with the reference on {len(wit)} witnesses but is not proven equal")
 
 
 def check_datetime_view(ck, fn, dt_term):
@@ -485,6 +536,7 @@ def run(ck):
         dom = [binop(">=", ms, C(0)), binop("<=", ms, C(MS - 1)), binop(">=", days, C(0)), binop("<=", days, C(65535)),
                binop(">=", qus, C(0)), binop("<=", qus, C(999)), binop(">=", secs, C(0)), binop("<=", secs, C(86399)), binop(">=", ddays, C(0))]
         total = binop("+", ms, binop("+", qus, binop("*", secs, C(1000))))
+        opaque_add = False
         ck.verdict("W-VAL", fn, "returns the updated timestamp", [] if res == ts else [show(res)[:40]], "self", nontrivial=False)
         # millisecond of day normalised, and equal to total mod MS
         for facts, leaf in split_gamma(new_ms, []):
@@ -501,6 +553,9 @@ def run(ck):
                     ck.unknown("I-INT", fn, f"{what} (branch {cond})", str(m))
             d = linearize(leaf) - linearize(total)
             ok = d.is_const() and d.c in (0, -MS)
+            if not ok and not d.is_const() and any(x.k == "obj" for a_ in d.co for x in subterms(a_)):
+                opaque_add = True       # arithmetic on the timedelta object itself: decided on witnesses below
+                continue
             ck.verdict("I-INT", fn, f"stored ms_of_day == (ms + delta) or (ms + delta) - 86400000 (branch {cond})", [] if ok else [f"differs from the total by {d!r}"], f"offset {d.c if d.is_const() else d!r}")
         for facts, leaf in split_gamma(new_days, []):
             if not D.feasible(dom + facts + [resolve(f, facts) for f in env.facts]):
@@ -508,6 +563,9 @@ def run(ck):
             cond = " and ".join(show(f)[:50] for f in facts) or "always"
             d = linearize(leaf) - linearize(binop("+", days, ddays))
             ok = d.is_const() and d.c in (0, 1)
+            if not ok and not d.is_const() and any(x.k == "obj" for a_ in d.co for x in subterms(a_)):
+                opaque_add = True
+                continue
             ck.verdict("I-INT", fn, f"stored day count == days + delta.days + carry, carry in {{0,1}} (branch {cond})", [] if ok else [f"differs by {d!r}"], f"carry {d.c if d.is_const() else '?'}")
             if ok:
                 # carry is taken exactly when the total reaches one day
@@ -526,6 +584,8 @@ def run(ck):
                 ck.refuted("I-INT", fn, f"a stored day count never exceeds 65535 (branch {cond})", f"{m}", witness=m)
             else:
                 ck.unknown("I-INT", fn, f"a stored day count never exceeds 65535 (branch {cond})", str(m))
+        if opaque_add:
+            check_add_by_witness(ck, fn, new_ms, new_days, td, env)
         ovf = [x for x in it.raises[n0:] if x["kind"] == "explicit" and not x["caught"] and x["exc"] == "OverflowError"]
         ck.verdict("G-REFUSE", fn, "day overflow raises OverflowError", [] if ovf else ["no OverflowError raise"], f"{len(ovf)} raise sites")
         others = [x for x in it.raises[n0:] if x["kind"] == "explicit" and not x["caught"] and x["exc"] not in ("OverflowError", "TypeError")]
